@@ -18,6 +18,14 @@
 //                                normalisation factors read from files
 //   scatter  : SingleScatterSimulation::process_data on a small scanner / phantom, line-integral cache enabled and disabled,
 //              T threads vs 1 thread (all bins bitwise, total scatter up to reassociation of the per-thread partial sums)
+//   rethread : ONE live object used with N, then M, then N threads (stir::set_num_threads; set_up again when the count grows):
+//              rethread.project (+ `acc` operations answered by the model of the per-thread images), rethread.loglik, rethread.listmode
+//   scatter.history : ONE scatter simulation: process_data, a setter called again, set_up, process_data, with threads / one thread / fresh objects
+//   listmode : PoissonLogLikelihoodWithLinearModelForMeanAndListModeDataWithProjMatrixByBin on synthetic in-memory list-mode data,
+//              with and without cache files, T threads vs 1 thread
+//   tiny     : 16 threads on fewer work items than threads (loglik, loglik_full, scatter, scatter.history, listmode)
+//   clear_cache : ProjMatrixByBin::clear_cache() against readers of the cache, in child processes
+//   default_threads : get_default_num_threads / set_num_threads() / set_default_num_threads and OMP_NUM_THREADS (`nt` operations)
 // Output: the event trace of every scenario in the line protocol (validated by lean/Driver/C18.lean) and
 // ORACLE verdicts comparing multi-threaded with single-threaded results.
 // Usage: c18_threads <seed> <quick|thorough> <opsfile> <implfile>
@@ -140,9 +148,14 @@ static long n_events = 0;
 // that no event after the line comes from a thread >= T and counts the work items of every such segment on their own.
 static std::vector<std::pair<std::size_t, int>> g_marks;
 // The events of the lazily built geometry tables identify their object by its address.  The list-mode objective function creates and
-// destroys ProjDataInfo objects while it runs (clones per record / per set_up), so that an address names several objects in turn and
+// destroys ProjDataInfo objects while it runs (clones per record / per set_up), and so does a setter history of the scatter simulation,
+// so that an address names several objects in turn and
 // "built twice" would be reported for what are two objects: the table events are left out of the traces of those scenarios.
 static bool g_drop_table_events = false;
+// The events of the matrix cache identify a row by (view, segment, key) but not the matrix object.  For TOF data the list-mode objective
+// function uses two matrices (its own and the clone inside the non-TOF back projector of the sensitivity) whose events would be taken
+// for one cache: the cache events are left out of those traces.
+static bool g_drop_cache_events = false;
 
 static void
 start_trace()
@@ -197,6 +210,8 @@ emit_trace(const std::string& name, int expected_bp, int expected_fp, int expect
       if (!only_site.empty() && e.site != only_site)
         continue;
       if (g_drop_table_events && e.site.compare(0, 4, "pdi.") == 0)
+        continue;
+      if (g_drop_cache_events && e.site.compare(0, 9, "pm.cache.") == 0)
         continue;
       long k = e.key;
       if (e.site.compare(0, 4, "pdi.") == 0 || e.site.compare(0, 9, "bp.local.") == 0 || e.site == "bp.reduce")
@@ -1782,7 +1797,10 @@ scenario_scatter_history(vh::Rng& rng, int T1, int T2, int kind, bool tiny = fal
           {
             g_logging = false;
             g_log.push_back(Event{ 0, cache ? "sc.act.reads" : "sc.nocache", g_sc_reads.load(), static_cast<int>(g_sc_hits.load()) });
+            // (set_template_proj_data_info replaces the ProjDataInfo object, possibly at the same address)
+            g_drop_table_events = true;
             emit_trace("scatter.history", 0, 0, 0);
+            g_drop_table_events = false;
           }
         o.ok = true;
       }
@@ -2203,8 +2221,10 @@ scenario_listmode(vh::Rng& rng, const std::vector<int>& thr, bool tiny)
           ask(obj, *xs[k], par[k]);
         }
       g_drop_table_events = true;
+      g_drop_cache_events = p.tof;
       emit_trace(uses == 1 ? "listmode" : "rethread.listmode", 0, 0, 0);
       g_drop_table_events = false;
+      g_drop_cache_events = false;
     }
   catch (std::exception& e)
     {
@@ -2383,8 +2403,8 @@ scenario_default_threads(vh::Rng& rng)
   stir::set_num_threads();
   op("nt set 0 " + np + " " + std::to_string(e1), "max " + std::to_string(stir::get_max_num_threads()));
   check_parallel("set_num_threads() after set_num_threads(" + std::to_string(e2) + ")", e2);
-  // set_default_num_threads goes back to the default, whatever was set
-  const int e3 = rng.range(2, 9);
+  // set_default_num_threads goes back to the default, whatever was set (here: more threads than processors)
+  const int e3 = nprocs + rng.range(1, 4);
   setenv("OMP_NUM_THREADS", std::to_string(e3).c_str(), 1);
   stir::set_default_num_threads();
   op("nt setdefault " + np + " " + std::to_string(e3), "max " + std::to_string(stir::get_max_num_threads()));
